@@ -581,7 +581,7 @@ func (r *mxRun) runStart(sc *mxScript) {
 	ms := &mxStore{r: r, st: newStore("gob"), delay: sc.storeDelay}
 	mr := &mxRand{s: ms}
 	crand.Reader = mr
-	sessions.Persistence = ms
+	sessions.Persistence = viaExtendable(ms)
 
 	// the sessions the requests will present: created by cookie-less requests, one after the other
 	n := 1 + sc.others
